@@ -58,7 +58,7 @@ C13)
   build "$W/bin" ./cmd/$LC -overlay "$W/ov.json" || exit 3
   ;;
 C14)
-  instr $REPO/machine/filesys/dir.go=unix,yield,sync $REPO/machine/filesys/mem.go=sync,yield,copy
+  instr $REPO/machine/filesys/dir.go=unix,yield,sync,maprange $REPO/machine/filesys/mem.go=sync,yield,copy,maprange
   build "$W/bin" ./cmd/$LC -overlay "$W/ov.json" || exit 3
   build "$W/free" ./cmd/$LC -race -tags free || exit 3
   export VERIF_FREE_BIN="$W/free"
